@@ -192,7 +192,7 @@ def prop_C15(ctx, tier):
               ASSUME_COMMON)
     n, anchors = K.check_lookup_stats(run, ctx)
     from . import planted as PL
-    PL.expect_fires(run, 'C15-P1', 'a hit of the sync global lookup counted as a miss', PL.plant_hit_counted_as_miss(ctx), K.check_lookup_stats)
+    PL.expect_fires(run, 'C15-P1', 'a hit counted as a miss', PL.plant_hit_counted_as_miss(ctx), K.check_lookup_stats)
     K.check_lookup_stats_free(run, ctx)
     run.require('C15-E1', 'lookup entry points', len([a for a in anchors.values() if a]), 3)
     run.require('C15-E1', 'scenario outcomes', n, 300)
@@ -214,8 +214,7 @@ def prop_C06(ctx, tier):
               'absent => no effect. S1: birth time is written only when an entry is stored (Instant::now / whole-second clock). Not decided: wall-clock behaviour.', ASSUME_COMMON)
     K.check_expiry_form(run, ctx)
     from . import planted as PL
-    PL.expect_fires(run, 'C06-K1', 'sync expiry test age > ttl', PL.plant_expiry_off_by_one(ctx), K.check_expiry_form)
-    PL.expect_fires(run, 'C06-K1', 'async expiry test age > ttl', PL.plant_async_expiry_off_by_one(ctx), K.check_expiry_form)
+    PL.expect_each_fires(run, 'C06-K1', 'expiry test off by one', PL.each_cmp(ctx, lambda ra, rb: 'AGE_SECS' in (ra, rb)), K.check_expiry_form)
     n, anchors = K.check_lookup_expiry(run, ctx)
     run.require('C06-E1', 'lookup entry points', len([a for a in anchors.values() if a]), 3)
     run.require('C06-E1', 'expiry test sites', sum(a['expiry'] for a in anchors.values() if a), 3)
@@ -238,7 +237,7 @@ def prop_C07(ctx, tier):
     run.require('C07-E1', 'LRU/FIFO hit outcomes', n, 40)
     S.check_orientation(run, ctx)
     from . import planted as PL
-    PL.expect_fires(run, 'C07-S1', 'sync global victim popped from the back of the queue', PL.plant_fifo_pops_newest(ctx), S.check_orientation)
+    PL.expect_fires(run, 'C07-S1', 'a victim popped from the back of the queue', PL.plant_fifo_pops_newest(ctx), S.check_orientation)
     S.check_order_preserving(run, ctx, 'C07-S2')
     K.check_orphan_tolerance(run, ctx, 'C07-P1')
     K.check_store_pairing(run, ctx, 'C07-S3')
@@ -278,8 +277,7 @@ def prop_C04(ctx, tier):
               'test. P5: the key removed from the store is the key removed from the queue. P1 also: an overflow with a victim available removes one. Not decided: the numeric bound over histories (induction on paper).', ASSUME_COMMON)
     K.check_overflow_form(run, ctx)
     from . import planted as PL
-    PL.expect_fires(run, 'C04-K1', 'sync global overflow test len >= limit', PL.plant_overflow_off_by_one(ctx), K.check_overflow_form)
-    PL.expect_fires(run, 'C04-K1', 'async overflow test len > limit', PL.plant_async_overflow_off_by_one(ctx), K.check_overflow_form)
+    PL.expect_each_fires(run, 'C04-K1', 'overflow test off by one', PL.each_cmp(ctx, lambda ra, rb: 'LIMIT' in (ra, rb) and ({ra, rb} & {'LEN_QUEUE', 'LEN_STORE'})), K.check_overflow_form)
     n, anchors = K.check_overflow_test_on_every_path(run, ctx)
     run.require('C04-E1', 'store entry points', len([a for a in anchors.values() if a]), 6)
     n2, a2 = K.check_one_victim(run, ctx)
@@ -310,7 +308,8 @@ def prop_C05(ctx, tier):
               'W1: max_memory selects the memory-aware store. Not decided: numeric totals.', ASSUME_COMMON)
     K.check_memory_forms(run, ctx)
     from . import planted as PL
-    PL.expect_fires(run, 'C05-K1', 'oversize test size >= max_memory', PL.plant_oversize_off_by_one(ctx), K.check_memory_forms)
+    PL.expect_each_fires(run, 'C05-K1', 'oversize test off by one', PL.each_cmp(ctx, lambda ra, rb: {ra, rb} == {'NEW_SIZE', 'MAX_MEM'}), K.check_memory_forms)
+    PL.expect_each_fires(run, 'C05-K2', 'fit test off by one', PL.each_cmp(ctx, lambda ra, rb: 'MAX_MEM' in (ra, rb) and any(r and r.startswith('MEM_SUM') for r in (ra, rb))), K.check_memory_forms)
     K.check_replacement_before_fit_test(run, ctx)
     K.check_memory_loop(run, ctx)
     S.check_estimators(run, ctx)
